@@ -56,6 +56,7 @@ int main(int argc, char **argv) {
     Cfg cfg; cfg.variants = vv::parse_variants(A.get("variants", "signed,fvs,iso,signed_tbb,fvs_tbb,iso_tbb"));
     vr::Runner R;
     R.nworkers = (int) A.geti("workers", 16);
+    R.max_viol_per_worker = 200000;     // the known finding of C09 is identified input by input: no violation line may be dropped
     if (A.has("deadline-s")) R.deadline_abs = vr::now_s() + A.getd("deadline-s", 0);
     if (A.has("replay-case")) {
         auto pc = vg::parse_case(A.get("replay-case"));
